@@ -255,6 +255,29 @@ def metric(ctx, f, cfg):
         ctx.instance("C18.metric-table/separators", b.path, {"separators": seps, "placeholders": len(writer)}, "n-1 '|' separators", oks, cfg)
         if not oks:
             ctx.violation("C18.metric-table", "C18.metric-table|separators", "Display writes %s separators for %d fields" % (seps, len(writer)), b.loc(), config=cfg)
+    # the resource name is read back verbatim: between the line and the `resource` field there is only splitting, indexing and
+    # conversion into an owned string - nothing that rewrites the text (trim, replace, case folding, ...)
+    VERBATIM = ("split", "splitn", "split_terminator", "collect", "index", "get", "nth", "next", "into_iter", "iter", "into", "from", "to_string", "to_owned",
+                "clone", "deref", "as_ref", "as_str", "borrow", "unwrap", "branch", "from_residual", "ok_or", "ok_or_else", "cloned", "copied", "len", "is_empty")
+    res_calls = None
+    for blk in rb.blocks:
+        if blk["cleanup"]:
+            continue
+        for s in blk["stmts"]:
+            if s["k"] == "assign" and s["rv"]["k"] == "agg" and s["rv"].get("adt") == adt:
+                for nm, o in zip(s["rv"]["fields"], s["rv"]["ops"]):
+                    if nm == "resource":
+                        res_calls = sorted({x[5:] for x in rs.of_operand(o) if x.startswith("call:")})
+            for pj in s["lhs"]["p"] if s["k"] == "assign" else []:
+                if pj == "." + adt + ".resource":
+                    res_calls = sorted(set(res_calls or []) | {x[5:] for x in rs.of_operand(s["rv"].get("op")) if x.startswith("call:")}) if s["rv"]["k"] == "use" else res_calls
+    rewriting = [c for c in (res_calls or []) if c.rsplit("::", 1)[-1] not in VERBATIM]
+    okv = res_calls is not None and not rewriting and "param:line" in set().union(*[rs.of_operand(o) for blk in rb.blocks for s in blk["stmts"] if s["k"] == "assign" and s["rv"]["k"] == "agg" and s["rv"].get("adt") == adt for nm, o in zip(s["rv"]["fields"], s["rv"]["ops"]) if nm == "resource"] or [set()])
+    ctx.instance("C18.metric-table/name-verbatim", rb.path, {"calls_between_line_and_resource": [c.rsplit("::", 2)[-2] + "::" + c.rsplit("::", 1)[-1] if "::" in c else c for c in (res_calls or [])], "rewriting": rewriting},
+                 "only splitting / indexing / owning conversions", okv, cfg)
+    if not okv:
+        ctx.violation("C18.metric-table", "C18.metric-table|name-rewritten|" + ",".join(sorted(c.rsplit("::", 1)[-1] for c in rewriting) or ["no-flow"]),
+                      "from_string does not read the resource name back verbatim: it passes through %s" % (rewriting or "nothing that comes from the line"), rb.loc(), config=cfg)
     # parse discipline and bounds
     parses = [(bb, t) for bb, t in rb.calls() if callee_def(t).endswith("str>::parse") or callee_def(t).rsplit("::", 1)[-1] == "parse"]
     bad = []
